@@ -95,7 +95,7 @@ Definition cache_headers (h : str -> str) (tps : Z) (r : resp) (ts : option stam
 (* value of the If-Modified-Since header as seen by email.utils.parsedate (stdlib, external):
    absent (environ.get -> None), unparsable (parsedate -> None), or the first six fields of the tuple *)
 Inductive imsval := ImsAbsent | ImsBad | ImsDate (y mo d hh mi ss : Z).
-Inductive parsed := PNone | PSome (t : Z) | PRaise.
+Inductive parsed := PNone | PSome (t : Z).
 
 Definition is_leap (y : Z) : bool := (y mod 4 =? 0) && (negb (y mod 100 =? 0) || (y mod 400 =? 0)).
 Definition days_before_year (y : Z) : Z := let y1 := y - 1 in y1 * 365 + y1 / 4 - y1 / 100 + y1 / 400.
@@ -108,13 +108,14 @@ Definition ordinal_ym1 (y m : Z) : Z := days_before_year y + days_before_month y
 Definition timegm (y mo d hh mi ss : Z) : Z :=
   let days := ordinal_ym1 y mo - 719163 + d - 1 in
   ((days * 24 + hh) * 60 + mi) * 60 + ss.
-(* parse_httpdate: years below 1970 get +2000; datetime.date raises outside 1..9999 / 1..12 *)
+(* parse_httpdate: years below 1970 get +2000; datetime.date raises ValueError / OverflowError outside 1..9999 /
+   1..12, which parse_httpdate catches and turns into None (repair of finding F18) *)
 Definition parse_httpdate (i : imsval) : parsed :=
   match i with
   | ImsAbsent | ImsBad => PNone
   | ImsDate y mo d hh mi ss =>
     let y' := if y <? 1970 then y + 2000 else y in
-    if (y' <? 1) || (9999 <? y') || (mo <? 1) || (12 <? mo) then PRaise
+    if (y' <? 1) || (9999 <? y') || (mo <? 1) || (12 <? mo) then PNone
     else PSome (timegm y' mo d hh mi ss)
   end.
 
@@ -134,7 +135,6 @@ Definition make_conditional (tps : Z) (r : resp) (inm : option str) (ims : imsva
   else match r_ts r with
        | Some ts =>
          match parse_httpdate ims with
-         | PRaise => Err500
          | PSome t => if ts <=? t * tps then Resp (not_modified r) else Resp r
          | PNone => Resp r
          end
@@ -289,7 +289,6 @@ Definition parsed_eqb (a b : parsed) : bool :=
   match a, b with
   | PNone, PNone => true
   | PSome x, PSome y => x =? y
-  | PRaise, PRaise => true
   | _, _ => false
   end.
 Definition stamp_eqb (a b : stamp) : bool := (st_ticks a =? st_ticks b) && str_eqb (st_repr a) (st_repr b).
